@@ -63,7 +63,7 @@ type GzipCompressor struct {
 }
 
 func (gc *GzipCompressor) WriteTOCTo(w io.Writer) (int, error) {
-	if len(gc.buf.Bytes()) == 0 {
+	if gc.buf == nil || len(gc.buf.Bytes()) == 0 {
 		return 0, fmt.Errorf("TOC hasn't been registered")
 	}
 	return w.Write(gc.buf.Bytes())
